@@ -10,6 +10,21 @@ import (
 // Edge is a CFG edge between two blocks of one function.
 type Edge struct{ From, To *ssa.BasicBlock }
 
+// DeadEdge: the i-th successor edge of b is never taken because b branches
+// on a boolean constant ("if x && false", "if false").
+func DeadEdge(b *ssa.BasicBlock, i int) bool {
+	iff, ok := lastInstr(b).(*ssa.If)
+	if !ok {
+		return false
+	}
+	k, ok := iff.Cond.(*ssa.Const)
+	if !ok || k.Value == nil {
+		return false
+	}
+	isTrue := k.Value.String() == "true"
+	return (i == 0 && !isTrue) || (i == 1 && isTrue)
+}
+
 // Reachable reports whether 'to' can be reached from 'from' without using
 // any edge in cut and without passing through a block in avoid.
 func Reachable(from, to *ssa.BasicBlock, cut []Edge, avoid map[*ssa.BasicBlock]bool) bool {
@@ -29,8 +44,8 @@ func Reachable(from, to *ssa.BasicBlock, cut []Edge, avoid map[*ssa.BasicBlock]b
 	for len(work) > 0 {
 		b := work[len(work)-1]
 		work = work[:len(work)-1]
-		for _, s := range b.Succs {
-			if seen[s] || isCut(b, s) || avoid[s] {
+		for i, s := range b.Succs {
+			if seen[s] || isCut(b, s) || avoid[s] || DeadEdge(b, i) {
 				continue
 			}
 			if s == to {
@@ -41,6 +56,12 @@ func Reachable(from, to *ssa.BasicBlock, cut []Edge, avoid map[*ssa.BasicBlock]b
 		}
 	}
 	return false
+}
+
+// Live reports whether b can execute at all (reachable from the entry when
+// branches on boolean constants are resolved).
+func Live(b *ssa.BasicBlock) bool {
+	return Reachable(b.Parent().Blocks[0], b, nil, nil)
 }
 
 // EdgeDominates: every path entry→target uses edge e (and target is reachable).
@@ -150,8 +171,8 @@ func SimplePaths(from *ssa.BasicBlock, isTarget func(*ssa.BasicBlock) bool, max 
 				res = true
 				break
 			}
-			for _, s := range x.Succs {
-				if !seen[s] {
+			for i, s := range x.Succs {
+				if !seen[s] && !DeadEdge(x, i) {
 					seen[s] = true
 					work = append(work, s)
 				}
@@ -187,6 +208,9 @@ func SimplePaths(from *ssa.BasicBlock, isTarget func(*ssa.BasicBlock) bool, max 
 			if i == 1 && b.Succs[0] == s {
 				continue
 			}
+			if DeadEdge(b, i) {
+				continue
+			}
 			if onPath[s] || !reaches(s) {
 				continue
 			}
@@ -208,6 +232,9 @@ func ReturnBlocks(fn *ssa.Function) []*ssa.BasicBlock {
 	for _, b := range fn.Blocks {
 		if b == fn.Recover {
 			continue // runs only after a recovered panic
+		}
+		if !Live(b) {
+			continue // behind a branch on a constant
 		}
 		if _, ok := lastInstr(b).(*ssa.Return); ok {
 			out = append(out, b)
@@ -263,9 +290,31 @@ func InLoop(b *ssa.BasicBlock) bool {
 	return false
 }
 
-// Instrs calls f for each instruction of fn.
+// Instrs calls f for each instruction of fn that can execute (blocks behind
+// a branch on a boolean constant are skipped).
 func Instrs(fn *ssa.Function, f func(ssa.Instruction)) {
+	if len(fn.Blocks) == 0 {
+		return
+	}
+	live := map[*ssa.BasicBlock]bool{fn.Blocks[0]: true}
+	work := []*ssa.BasicBlock{fn.Blocks[0]}
+	for len(work) > 0 {
+		b := work[len(work)-1]
+		work = work[:len(work)-1]
+		for i, s := range b.Succs {
+			if !live[s] && !DeadEdge(b, i) {
+				live[s] = true
+				work = append(work, s)
+			}
+		}
+	}
+	if fn.Recover != nil {
+		live[fn.Recover] = true
+	}
 	for _, b := range fn.Blocks {
+		if !live[b] {
+			continue
+		}
 		for _, in := range b.Instrs {
 			f(in)
 		}
